@@ -64,6 +64,8 @@ def v3_public():
         Harness("sign_is_spec_3_2_1", ["C03", "C01"], complete=False, bound="|m|=3,|f|=2,|a|=1; contents symbolic", functions=fl),
         Harness("verify_accepts_spec_0_0_0", ["C03", "C01"], complete=False, bound="|m|=0,|f|=0,|a|=0", functions=fl + kd),
         Harness("verify_accepts_spec_3_2_1", ["C03", "C01"], complete=False, bound="|m|=3,|f|=2,|a|=1", functions=fl + kd),
+        Harness("verify_accepts_spec_twin_0_0_0", ["C03", "C01"], complete=False, bound="|m|=0,|f|=0,|a|=0; the specification token with s replaced by n - s", functions=fl + kd),
+        Harness("verify_accepts_spec_twin_3_2_1", ["C03", "C01"], complete=False, bound="|m|=3,|f|=2,|a|=1; the specification token with s replaced by n - s", functions=fl + kd),
         Harness("roundtrip_own_nonce_0_0_0", ["C01"], complete=False, bound="|m|=0,|f|=0,|a|=0", functions=fl),
         Harness("roundtrip_own_nonce_1_1_1", ["C01"], complete=False, bound="|m|=1,|f|=1,|a|=1", functions=fl),
         Harness("verify_rejects_tamper_0_0_0", ["C02", "C12"], complete=False, bound="|m|=0,|f|=0,|a|=0; flip position and bit symbolic", functions=fl + kd, timeout=1800),
